@@ -67,6 +67,12 @@ private def fui (name : String) : Option (St → Nat → Nat → Nat → St) :=
   | _ => none
 
 def handle : Handler
+  | "as4_set_d", [.num wa, .num wv, .num d] => do
+      let w ← mk? wa wv
+      if !(0 ≤ d && d < 2 ^ 64) then none else
+      match mpz_set_d (heap w w w) 0 d.toNat with
+      | none => some [.err "fpe"]
+      | some s' => some (outW s' 0)
   | "as4_sqrtrem", [.num m, .num qa, .num qv, .num ra, .num rv, .num ua, .num uv] => do
       let q ← mk? qa qv; let r ← mk? ra rv; let u ← mk? ua uv
       let s : St := ⟨fun i => if i = 0 then q else if i = 1 then r else u, true⟩
